@@ -351,11 +351,34 @@ func crossGenFiles() map[string]string {
 	mk := func(name, body string) string {
 		return "abi <abi/4.0>,\n\ninclude <tunables/global>\n\n@{exec_path} = @{bin}/" + name + "\nprofile " + name + " @{exec_path} {\n  include <abstractions/base>\n\n  @{exec_path} mr,\n\n" + body + "\n  include if exists <local/" + name + ">\n}\n"
 	}
+	pre := func(name, preamble, header, body string) string {
+		return "abi <abi/4.0>,\n\ninclude <tunables/global>\n\n" + preamble + "profile " + name + " " + header + "{\n  include <abstractions/base>\n\n  @{exec_path} mr,\n\n" + body + "\n  include if exists <local/" + name + ">\n}\n"
+	}
 	return map[string]string{
 		"aa-vgen-xhost":   mk("aa-vgen-xhost", "  /usr/bin/own rPUx,\n\n  #aa:stack X zz-vgen-xtarget\n"),
 		"zz-vgen-xtarget": mk("zz-vgen-xtarget", "  /usr/bin/late rPUx,\n  /usr/bin/late2 rUx,\n  /usr/bin/keep rPx,\n"),
 		"zz-vgen-xhost":   mk("zz-vgen-xhost", "  #aa:stack X aa-vgen-xtarget\n"),
 		"aa-vgen-xtarget": mk("aa-vgen-xtarget", "  /usr/bin/early rPUx,\n"),
+
+		// history probes (C02/C06/C13): a profile that appends to built-in tunables, then one that uses them
+		"aa-vgen-hist-append": pre("aa-vgen-hist-append", "@{lib} += /opt/vendor/lib\n@{bin} += /opt/vendor/bin\n@{exec_path} = @{bin}/aa-vgen-hist-append\n", "@{exec_path} ", "  /etc/hist r,\n"),
+		"zz-vgen-hist-uselib": pre("zz-vgen-hist-uselib", "@{exec_path} = @{lib}/zz-vgen-hist-uselib @{bin}/zz2-vgen\n", "@{exec_path} ", "  /etc/hist r,\n"),
+		// two profiles with textually identical definitions over different local variables
+		"aa-vgen-hist-name1": pre("aa-vgen-hist-name1", "@{name} = alpha\n@{lib_dirs} = /opt/@{name}\n@{exec_path} = @{lib_dirs}/@{name}\n", "@{exec_path} ", "  /etc/hist r,\n"),
+		"zz-vgen-hist-name2": pre("zz-vgen-hist-name2", "@{name} = beta\n@{lib_dirs} = /opt/@{name}\n@{exec_path} = @{lib_dirs}/@{name}\n", "@{exec_path} ", "  /etc/hist r,\n"),
+		// the same filter directive at two indentations, in two files and inside one file
+		"aa-vgen-hist-only1": mk("aa-vgen-hist-only1", "  #aa:only arch\n  /etc/only-arch r,\n\n  #aa:exclude apt\n  /etc/not-apt r,\n\n  /etc/always r,\n"),
+		"zz-vgen-hist-only2": mk("zz-vgen-hist-only2", "  /etc/always r,\n\n  profile sub {\n    include <abstractions/base>\n\n    #aa:only arch\n    /etc/only-arch r,\n\n    #aa:exclude apt\n    /etc/not-apt r,\n\n    /etc/sub r,\n\n    include if exists <local/zz-vgen-hist-only2_sub>\n  }\n"),
+		// stack without X, then with X, of the same target whose rules include a path containing "x,"
+		"aa-vgen-hist-stack":  mk("aa-vgen-hist-stack", "  /etc/host1 r,\n\n  #aa:stack zz-vgen-hist-target\n"),
+		"bb-vgen-hist-stackx": mk("bb-vgen-hist-stackx", "  /etc/host2 r,\n\n  #aa:stack X zz-vgen-hist-target zz-vgen-xtarget\n"),
+		"zz-vgen-hist-target": mk("zz-vgen-hist-target", "  capability sys_admin,\n\n  /usr/bin/tool rPx,\n  /usr/bin/helper rix,\n  /boot/{linux,initrd} r,\n  /etc/target r,\n\n  #aa:dbus own bus=system name=org.vgen.Target\n"),
+		// exec directives: default, explicit and two-target forms over the same targets
+		"aa-vgen-hist-exec1": mk("aa-vgen-hist-exec1", "  #aa:exec zz-vgen-hist-uselib\n"),
+		"bb-vgen-hist-exec2": mk("bb-vgen-hist-exec2", "  #aa:exec U zz-vgen-hist-uselib\n\n  /etc/between r,\n"),
+		"cc-vgen-hist-exec3": mk("cc-vgen-hist-exec3", "  /etc/before r,\n\n  #aa:exec pu zz-vgen-hist-uselib aa-vgen-hist-name1\n"),
+		// dbus directives with names that are patterns, variables, explicit interfaces and paths
+		"cc-vgen-hist-dbus": mk("cc-vgen-hist-dbus", "  #aa:dbus own bus=session name=org.a11y.{B,b}us\n  #aa:dbus own bus=system name=org.vgen.Svc path=/org/vgen/Svc interface=org.vgen.Iface interface+=org.vgen.Extra\n  #aa:dbus talk bus=system name=org.gtk.vfs.mountpoint_@{int} label=gvfsd\n  #aa:dbus talk bus=session name=org.vgen.Peer label=vgen-peer interface=org.vgen.PeerIface path=/org/vgen/Peer\n  #aa:dbus common bus=system name=org.freedesktop.{S,s}ecret{,s} label=secretd\n"),
 	}
 }
 
